@@ -638,6 +638,33 @@ func eventProviderOver(events map[string]gmsl.PDU) gmsl.EventProvider {
 	}
 }
 
+// backfiller answers a backfill request with fixed (remote) PDUs.
+type backfiller struct {
+	stubStateProvider
+	pdus []json.RawMessage
+}
+
+func (b backfiller) Backfill(ctx context.Context, origin, server spec.ServerName, roomID string, limit int, from []string) (gmsl.Transaction, error) {
+	if env == "perr" && server == "hs1" {
+		return gmsl.Transaction{}, fmt.Errorf("backfill: server unreachable")
+	}
+	return gmsl.Transaction{Origin: server, PDUs: b.pdus}, nil
+}
+func (b backfiller) ServersAtEvent(ctx context.Context, roomID, eventID string) []spec.ServerName {
+	return []spec.ServerName{"hs1", "hs2"}
+}
+func (b backfiller) ProvideEvents(v gmsl.RoomVersion, ids []string) ([]gmsl.PDU, error) {
+	return eventProviderOver(b.events)(v, ids)
+}
+
+func backfill(ver gmsl.RoomVersion, pdus []json.RawMessage, known map[string]gmsl.PDU) error {
+	if known == nil {
+		known = map[string]gmsl.PDU{}
+	}
+	_, err := gmsl.RequestBackfill(bg, "hs9", backfiller{stubStateProvider{known}, pdus}, verifier{}, "!room:hs1", ver, []string{"$from"}, 100, userIDForSender)
+	return err
+}
+
 // ResolveEntries are the entry points of state resolution and of the checks built on it.
 var ResolveEntries = []string{"new", "old", "direct", "topo_auth", "topo_prev", "topo_headered", "linearise", "checkstate", "sendjoin", "load", "authchain"}
 
@@ -718,6 +745,14 @@ func (s *pipeState) resolve(entry, role string) outcome {
 			_, err := l.LoadAndVerify(bg, raws, gmsl.TopologicalOrderByAuthEvents, userIDForSender)
 			return err
 		})
+	case "backfill":
+		// the PDUs are what the servers asked for a backfill answered with (two servers give the same answer)
+		raws := make([]json.RawMessage, 0, len(in.all)+1)
+		for _, e := range in.all {
+			raws = append(raws, json.RawMessage(e.JSON()))
+		}
+		raws = append(raws, json.RawMessage(s.raw))
+		return s.do(n, func() error { return backfill(ver, raws, byID) })
 	case "authchain":
 		e := s.cur
 		s.do(n, func() error { return gmsl.VerifyEventAuthChain(bg, e, eventProviderOver(byID), userIDForSender) })
@@ -786,6 +821,16 @@ func (s *pipeState) sweep() {
 	for _, entry := range []string{"new", "old", "direct", "topo_auth", "topo_prev", "linearise", "checkstate"} {
 		s.resolve(entry, "both")
 	}
+	s.resolve("new", "bare")
+	s.resolve("backfill", "dup")
+	for _, h := range []string{"Invite", "SendJoin", "MakeJoin", "MakeLeave"} {
+		s.handle(h)
+	}
+	s.performInvite()
+	env = "qnil"
+	s.authCheckEvent()
+	s.handle("Invite")
+	env = ""
 	s.mutate("SetUnsigned")
 	s.mutate("Sign")
 	s.verifySignatures()
